@@ -579,6 +579,9 @@ func (i *Snapshot) ReadFrom(r io.Reader) (int64, error) {
 		return bytesRead, fmt.Errorf("error peeking snapshot format version %d: %w", i.epoch, err)
 	}
 	snapshotFormatVersion, n := binary.Uvarint(peek)
+	if n <= 0 {
+		return bytesRead, fmt.Errorf("error reading snapshot format version %d: malformed uvarint", i.epoch)
+	}
 	sz, err := br.Discard(n)
 	if err != nil {
 		return bytesRead, fmt.Errorf("error reading snapshot format version %d: %w", i.epoch, err)
@@ -602,6 +605,9 @@ func (i *Snapshot) readFromVersion1(br *bufio.Reader) (int64, error) {
 		return bytesRead, fmt.Errorf("error peeking snapshot number of segments %d: %w", i.epoch, err)
 	}
 	numSegments, n := binary.Uvarint(peek)
+	if n <= 0 {
+		return bytesRead, fmt.Errorf("error reading snapshot number of segments %d: malformed uvarint", i.epoch)
+	}
 	sz, err := br.Discard(n)
 	if err != nil {
 		return bytesRead, fmt.Errorf("error reading snapshot number of segments %d: %w", i.epoch, err)
@@ -646,6 +652,9 @@ func (i *Snapshot) readSegmentSnapshot(br *bufio.Reader) (bytesRead int64, ss *s
 		return bytesRead, nil, fmt.Errorf("error reading snapshot %d: %w", i.epoch, err)
 	}
 	segmentID, n := binary.Uvarint(peekSegmentID)
+	if n <= 0 {
+		return bytesRead, nil, fmt.Errorf("error reading snapshot %d: malformed segment id", i.epoch)
+	}
 	sz, err = br.Discard(n)
 	if err != nil {
 		return bytesRead, nil, fmt.Errorf("error reading snapshot %d: %w", i.epoch, err)
@@ -664,6 +673,9 @@ func (i *Snapshot) readSegmentSnapshot(br *bufio.Reader) (bytesRead int64, ss *s
 		return bytesRead, nil, fmt.Errorf("xerror reading snapshot %d: %w", i.epoch, err)
 	}
 	delLen, n := binary.Uvarint(peek)
+	if n <= 0 {
+		return bytesRead, nil, fmt.Errorf("error reading snapshot %d: malformed deleted length", i.epoch)
+	}
 	sz, err = br.Discard(n)
 	if err != nil {
 		return bytesRead, nil, fmt.Errorf("error reading snapshot %d: %w", i.epoch, err)
@@ -698,6 +710,9 @@ func readVarLenString(r *bufio.Reader) (n int, str string, err error) {
 		return n, "", err
 	}
 	strLen, uVarRead := binary.Uvarint(peek)
+	if uVarRead <= 0 {
+		return n, "", fmt.Errorf("malformed string length")
+	}
 	sz, err := r.Discard(uVarRead)
 	if err != nil {
 		return n, "", err
